@@ -209,6 +209,23 @@ pub fn run_c14(sc: &HistSc, st: &mut Stats) -> super::c06::HistOutcome {
             { let mut e = obs.clone(); e[j].value = different_leaf(&e[j].value); near.push(("one value changed", e)); }
             { let mut e = obs.clone(); change_one_deep_leaf(&mut e[j].value, &mut rng); near.push(("one leaf changed inside a nested value", e)); }
             { let mut e = obs.clone(); let mut k = e[j].key.as_str().to_string(); k.push('~'); e[j].key = Key::from(k.as_str()); near.push(("one key changed", e)); }
+            {
+                // one key replaced by another key that occurs in the object (if it differs)
+                let other = obs[rng.usize_below(obs.len())].key.clone();
+                if other.as_str() != obs[j].key.as_str() { let mut e = obs.clone(); e[j].key = other; near.push(("one key replaced by another key of the object", e)); }
+            }
+            {
+                // one character of one key moved to another plane (same low 16 bits) or to its neighbour
+                let k = obs[j].key.as_str();
+                if let Some(c) = k.chars().last() {
+                    let cp = c as u32;
+                    let cands = [cp ^ 0x10_0000, cp ^ 0x1_0000, cp + 1, cp ^ 0x100];
+                    if let Some(nc) = cands.iter().filter_map(|x| char::from_u32(*x)).find(|x| *x != c) {
+                        let mut nk: String = k.chars().take(k.chars().count() - 1).collect(); nk.push(nc);
+                        let mut e = obs.clone(); e[j].key = Key::from(nk.as_str()); near.push(("last character of one key moved to another plane / neighbour", e));
+                    }
+                }
+            }
             { let mut e = obs.clone(); let x = e[j].clone(); e.push(x); near.push(("one entry duplicated", e)); }
             { let mut e = obs.clone(); e.remove(j); near.push(("one entry removed", e)); }
             if j + 1 < obs.len() && !(obs[j].key.as_str() == obs[j + 1].key.as_str() && same_value(&obs[j].value, &obs[j + 1].value)) { let mut e = obs.clone(); e.swap(j, j + 1); near.push(("two adjacent entries swapped", e)); }
